@@ -315,8 +315,18 @@ func (w *world) apply(o op, delEmp bool, curTx int) {
 		ac := &acct{balance: new(big.Int), tokens: map[int]*big.Int{}, storage: map[int][]byte{}, dirty: true}
 		if had {
 			// documented: "If a state object with the address already exists the
-			// balance is carried over to the new account."
+			// balance is carried over to the new account." Token balances are funds
+			// like the coin balance (C06: they must not disappear; /repo ac944bb).
 			ac.balance = new(big.Int).Set(prev.balance)
+			for k, v := range prev.tokens {
+				ac.tokens[k] = new(big.Int).Set(v)
+			}
+			for k := range prev.tokKeys {
+				if ac.tokKeys == nil {
+					ac.tokKeys = map[int]bool{}
+				}
+				ac.tokKeys[k] = true
+			}
 		}
 		w.accts[o.a] = ac
 	case opSuicide:
